@@ -220,6 +220,44 @@ def run(case):
             if got.shape != want.shape or np.abs(got - want).max() > 1e-13 * max(np.abs(want).max(), 1.0):
                 bad(f"aliasing/{fname}/point-container-reused/{how}", f"{fname}(point) after the SAME point container was overwritten in place returns the values of the earlier point", float(np.abs(got - want).max()) if got.shape == want.shape else list(got.shape), 0)
 
+    # (0b) objects of the same order created AFTER the element and modified in place by THEIR owners (a sibling element that
+    # is re-numbered consistently, an arbitrary-order mesh whose cells are re-numbered, a Gauss-Legendre rule of that order that
+    # is rescaled): the first element keeps its nodal basis (one at its own node, zero at the others)
+    if cls == "ArbitraryOrderLagrange":
+        pts0 = np.array(el.points, dtype=float, copy=True)
+        K0 = np.array([np.asarray(el.function(pt_), dtype=float) for pt_ in pts0])
+        sib = getattr(fem.element, cls)(**kwc)
+        if getattr(sib, "permute", None) is not None and len(np.atleast_1d(sib.permute)) > 2:
+            pm = sib.permute
+            i_, j_ = len(pm) // 2, len(pm) - 1
+            pm[[i_, j_]] = pm[[j_, i_]]
+            sib.points[[i_, j_]] = sib.points[[j_, i_]]
+        try:
+            if dim == 2:
+                m_ = fem.mesh.RectangleArbitraryOrderQuad(order=order)
+            elif dim == 3:
+                m_ = fem.mesh.CubeArbitraryOrderHexahedron(order=order)
+            else:
+                m_ = None
+            if m_ is not None:
+                cc_ = m_.cells
+                a_, b_ = cc_.shape[1] // 2, cc_.shape[1] - 1
+                cc_[:, [a_, b_]] = cc_[:, [b_, a_]]
+        except Exception:  # noqa
+            pass
+        try:
+            q_ = fem.GaussLegendre(order=order, dim=dim)
+            q_.points *= 0.5
+            q_.weights *= 0.5
+        except Exception:  # noqa
+            pass
+        K1 = np.array([np.asarray(el.function(pt_), dtype=float) for pt_ in pts0])
+        ntrans += 2 * len(pts0)
+        if not np.array_equal(np.asarray(el.points, dtype=float), pts0):
+            bad("siblings/points", "the element's point table changed when sibling objects of the same order were modified by their owners", float(np.abs(np.asarray(el.points, dtype=float) - pts0).max()), 0)
+        if np.abs(K1 - K0).max() > 0 or np.abs(K1 - np.eye(len(pts0))).max() > 1e-9:
+            bad("siblings/nodal-basis", "shape functions at the element's own points after sibling objects (element, mesh, quadrature of the same order) were modified in place by their owners", float(max(np.abs(K1 - K0).max(), np.abs(K1 - np.eye(len(pts0))).max())), "identity, unchanged")
+
     # (v) degree bound: interpolate the tabulated function onto a shifted lattice
     y = lo + (hi - lo) * (np.arange(n + 1) + 0.37) / (n + 1.3)
     L = bary_matrix(x, y)
